@@ -13,38 +13,44 @@ theorem fp_congr {r r' : Rec} (e1 : r'.depth = r.depth) (e2 : r'.expried = r.exp
 theorem InvK.irrel' {db db' : DB} (hk : InvK db) (hid : Nat) (f : Rec → Rec) (e1 : db'.recs = modRecs hid f db.recs)
     (hf : ∀ r, (f r).hid = r.hid ∧ (f r).depth = r.depth ∧ (f r).expried = r.expried ∧ (f r).ack = r.ack)
     (e2 : db'.tab = db.tab) (e3 : db'.journal = db.journal) (e4 : db'.cfg = db.cfg) : InvK db' := by
-  have hg : ∀ a, (db'.getR a).fp = (db.getR a).fp ∧ (db'.getR a).ack = (db.getR a).ack := by
+  have hg : ∀ a, (db'.getR a).fp = (db.getR a).fp ∧ (db'.getR a).ack = (db.getR a).ack ∧ (db'.getR a).depth = (db.getR a).depth := by
     intro a
     rw [getR_frame (db := db.modR hid f) e1, getR_modR db hid f (fun r => (hf r).1)]
     split
     · split
-      · exact ⟨fp_congr (hf _).2.1 (hf _).2.2.1 (hf _).2.2.2, (hf _).2.2.2⟩
-      · exact ⟨rfl, rfl⟩
-    · exact ⟨rfl, rfl⟩
-  refine ⟨by rw [e4]; exact hk.cfg, ?_, ?_, ?_⟩
+      · exact ⟨fp_congr (hf _).2.1 (hf _).2.2.1 (hf _).2.2.2, (hf _).2.2.2, (hf _).2.1⟩
+      · exact ⟨rfl, rfl, rfl⟩
+    · exact ⟨rfl, rfl, rfl⟩
+  refine ⟨by rw [e4]; exact hk.cfg, ?_, ?_, ?_, ?_⟩
   · rw [e1]
     exact forall_modR db hid f hk.recs (fun r _ _ hr => KR_congr (hf r).2.1 (hf r).2.2.1 (hf r).2.2.2 hr)
   · intro a hfp; rw [(hg a).1] at hfp; unfold jc tc; rw [e2, e3]; exact hk.k2 a hfp
-  · rw [e2, e4]; intro x hx hfp; rw [(hg _).1] at hfp; rw [(hg _).2]; exact hk.k1 x hx hfp
+  · rw [e2, e4]; intro x hx hfp; rw [(hg _).1] at hfp; rw [(hg _).2.1]; exact hk.k1 x hx hfp
+  · intro a hj; rw [jc_of_journal e3] at hj
+    unfold Rec.pending; rw [(hg a).2.1, (hg a).2.2]; exact hk.kj a hj
 
 theorem InvK.frame {db db' : DB} (hk : InvK db) (e1 : db'.recs = db.recs) (e2 : db'.tab = db.tab) (e3 : db'.journal = db.journal)
     (e4 : db'.cfg = db.cfg) : InvK db' := by
   have hg : ∀ a, db'.getR a = db.getR a := fun a => getR_frame e1 a
-  refine ⟨by rw [e4]; exact hk.cfg, by rw [e1]; exact hk.recs, ?_, ?_⟩
+  refine ⟨by rw [e4]; exact hk.cfg, by rw [e1]; exact hk.recs, ?_, ?_, ?_⟩
   · intro a hfp; rw [hg] at hfp; unfold jc tc; rw [e2, e3]; exact hk.k2 a hfp
   · rw [e2, e4]; intro x hx hfp; rw [hg] at hfp ⊢; exact hk.k1 x hx hfp
+  · intro a hj; rw [jc_of_journal e3] at hj; rw [hg]; exact hk.kj a hj
 
 /-- fewer table entries / journal records -/
 theorem InvK.sub {db db' : DB} (hk : InvK db) (e1 : db'.recs = db.recs) (e2 : db'.tab.Sublist db.tab) (e3 : db'.journal.Sublist db.journal)
     (e4 : db'.cfg = db.cfg) : InvK db' := by
   have hg : ∀ a, db'.getR a = db.getR a := fun a => getR_frame e1 a
-  refine ⟨by rw [e4]; exact hk.cfg, by rw [e1]; exact hk.recs, ?_, ?_⟩
+  refine ⟨by rw [e4]; exact hk.cfg, by rw [e1]; exact hk.recs, ?_, ?_, ?_⟩
   · intro a hfp; rw [hg] at hfp
     have := hk.k2 a hfp
     have h1 : jc db' a ≤ jc db a := jcL_sublist e3 a
     have h2 : tc db' a ≤ tc db a := tcL_sublist e2 a
     omega
   · rw [e4]; intro x hx hfp; rw [hg] at hfp ⊢; exact hk.k1 x (e2.subset hx) hfp
+  · intro a hj
+    have h1 : jc db' a ≤ jc db a := jcL_sublist e3 a
+    rw [hg]; exact hk.kj a (by omega)
 
 theorem InvK.modKey {db : DB} (hk : InvK db) (k : Nat) (f : Key → Key) : InvK (db.modKey k f) := hk.frame (by simp) (by simp) (by simp) (by simp)
 theorem InvK.ctrMod {db : DB} (hk : InvK db) (f : Counters → Counters) : InvK (db.ctrMod f) := hk.frame rfl rfl rfl rfl
@@ -69,10 +75,16 @@ theorem AtK.grant {db : DB} {hid : Nat} {r : Rec} (h : AtK db hid r) :
   obtain ⟨r3, h3, c1, c2, c3⟩ := h2.addExpried
   exact ⟨r3, h3.ctrMod _, by rw [c1, b2, a2], by rw [c2, b3, a3], c3⟩
 
-theorem InvK.grant {db : DB} (ha : InvA db) (hk : InvK db) (hid : Nat) {r : Rec} (e : findR db.recs hid = some r) (hle : r.ack ≤ NOACK) :
-    InvK (db.grant hid).1 := by
+theorem addExpried_journal (db : DB) (hid : Nat) : (db.addExpried hid).journal = db.journal := rfl
+theorem grant_journal (db : DB) (hid : Nat) : (db.grant hid).1.journal = db.journal := by
+  unfold DB.grant; simp only [ctrMod_journal, addExpried_journal, valueOp_journal, addLock_journal, modR_journal]
+
+/-- `hj`: no LOCK journal record points at the record being granted (a queued request or a record just made) -/
+theorem InvK.grant {db : DB} (ha : InvA db) (hk : InvK db) (hid : Nat) {r : Rec} (e : findR db.recs hid = some r) (hle : r.ack ≤ NOACK)
+    (hj : jc db hid = 0) : InvK (db.grant hid).1 := by
   obtain ⟨r', h', e1, e2, e3⟩ := (AtK.start ha hk e).grant
   refine h'.finishN ⟨?_, by intro _ hh; rw [e3] at hh; exact absurd hh (by decide)⟩ (fp_false_of_expried e3)
+    (by intro hh; rw [jc_of_journal (grant_journal db hid), hj] at hh; omega)
   rw [e2]; split
   · decide
   · exact hle
@@ -96,7 +108,7 @@ theorem InvK.applyWake {db : DB} (ha : InvA db) (hk : InvK db) (k : Nat) : InvK 
     have hp := present_of (Or.inr (Or.inl hw.1))
     unfold Slock.Ack.applyWake; simp only []
     have hle := (hk.recs _ (findR_some_mem hp).1).1
-    exact InvK.grant (ha.ctrMod _) (hk.ctrMod _) w (r := db.getR w) hp hle
+    exact InvK.grant (ha.ctrMod _) (hk.ctrMod _) w (r := db.getR w) hp hle (ha.unref (Or.inl hw.1)).1
   | ackGrant w =>
     have hw := hs.2.1 w e
     have hp := present_of (Or.inr (Or.inl hw.1))
@@ -107,6 +119,7 @@ theorem InvK.applyWake {db : DB} (ha : InvA db) (hk : InvK db) (k : Nat) : InvK 
     rw [hw.2] at a3; simp at a3
     unfold Slock.Ack.applyWake; simp only []
     refine (h2.ctrMod _).finish ⟨by rw [b3, a3]; decide, by intro _ _; unfold Rec.pending; rw [b3, a3]; decide⟩ ?_ ?_
+      (fun _ => Or.inr (by unfold Rec.pending; rw [b3, a3]; decide))
     · intro _
       have e1 : tc ((db.ackHold w).pushLock w).1 w = 0 := by unfold tc; rw [t2, ackHold_tab]; exact hu.2
       have e2 : jc (db.ackHold w) w = 0 := by unfold jc; rw [ackHold_journal]; exact hu.1
@@ -125,7 +138,7 @@ theorem InvK.applyWake {db : DB} (ha : InvA db) (hk : InvK db) (k : Nat) : InvK 
     have h2 := (h1.ctrMod (fun x => { x with waitCount := x.waitCount - 1 })).modR (fun r => { r with timeouted := true }) (by intro _; rfl)
     obtain ⟨r3, h3, e1, e2⟩ := h2.rollback
     unfold Slock.Ack.applyWake; simp only []
-    exact h3.finishN (KR_dead' e1 e2) (fp_false_of_depth e1)
+    exact h3.finishD (KR_dead' e1 e2) e1
 
 theorem InvK.wakeLoop (fuel : Nat) : ∀ {db : DB}, InvA db → InvK db → ∀ (k : Nat) (out : List Reply), InvK (wakeLoop fuel db k out).1 := by
   induction fuel with
@@ -146,7 +159,11 @@ theorem InvK.wake {db : DB} (ha : InvA db) (hk : InvK db) (k : Nat) (out : List 
 
 /-! ### `DoAckLock` -/
 
-theorem InvK.ackDone {db : DB} (ha : InvA db) (hk : InvK db) (hid : Nat) (ok : Bool) : InvK (ackDone db hid ok).1 := by
+/-- `he`: a pending hold is not in the expiry wheel yet (`QR`); `hj0`: the success exit is reached from the table entry, the journal no longer
+holds the lock's LOCK record -/
+theorem InvK.ackDone {db : DB} (ha : InvA db) (hk : InvK db) (hid : Nat) (ok : Bool)
+    (he : (db.getR hid).pending = true → (db.getR hid).depth > 0 → (db.getR hid).expried = true)
+    (hj0 : ok = true → jc db hid = 0) : InvK (ackDone db hid ok).1 := by
   unfold Slock.Ack.ackDone
   by_cases hp : (db.getR hid).pending = true
   · have hpr := present_of (Or.inl hp)
@@ -165,16 +182,32 @@ theorem InvK.ackDone {db : DB} (ha : InvA db) (hk : InvK db) (hid : Nat) (ok : B
       · split at hc <;> simp at hc
     rcases hcl with e | e | e <;> rw [e] <;> unfold Slock.Ack.applyAck <;> simp only []
     · have h1 := h0.modR (fun r => { r with ack := NOACK, undo := none }) (by intro _; rfl)
-      refine h1.finishN ⟨Nat.le_refl _, ?_⟩ (fp_false_of_noack rfl)
-      intro hd he
-      rcases hupd e with h | h
-      · simp only [] at he; rw [h] at he; exact absurd he (by decide)
-      · simp only [] at hd; omega
+      refine h1.finishN ⟨Nat.le_refl _, ?_⟩ (fp_false_of_noack rfl) ?_
+      · intro hd he
+        rcases hupd e with h | h
+        · simp only [] at he; rw [h] at he; exact absurd he (by decide)
+        · simp only [] at hd; omega
+      · intro _
+        rcases hupd e with h | h
+        · by_cases hd : (db.getR hid).depth > 0
+          · rw [he hp hd] at h; exact absurd h (by decide)
+          · exact Or.inl (by simp only []; omega)
+        · exact Or.inl h
     · have h1 := h0.modR (fun r => { r with ack := NOACK, undo := none, expT := r.startT + r.cmd.expried + 1 }) (by intro _; rfl)
       obtain ⟨r2, h2, c1, c2, c3⟩ := h1.addExpried
+      have hok : ok = true := by
+        unfold classifyAck at e; simp only [hp, Bool.not_true, Bool.false_eq_true, if_false] at e
+        split at e
+        · simp at e
+        · split at e
+          · assumption
+          · simp at e
       exact h2.finishN ⟨by rw [c2]; exact Nat.le_refl _, by intro _ hh; rw [c3] at hh; exact absurd hh (by decide)⟩ (fp_false_of_expried c3)
+        (by intro hh; have : jc ((db.modR hid (fun r => { r with timeouted := true })).modR hid
+              (fun r => { r with ack := NOACK, undo := none, expT := r.startT + r.cmd.expried + 1 }) |>.addExpried hid) hid = jc db hid := rfl
+            rw [this, hj0 hok] at hh; omega)
     · obtain ⟨r2, h2, c1, c2⟩ := h0.rollback
-      have hk' := h2.finishN (KR_dead' c1 c2) (fp_false_of_depth c1)
+      have hk' := h2.finishD (KR_dead' c1 c2) c1
       exact InvK.wake ((ha.modR_irrel hid _ (irrel_timeouted true)).rollback hid) hk' _ _
   · have hp' : (db.getR hid).pending = false := by simpa using hp
     have hcl : classifyAck db hid ok = .settled := by unfold classifyAck; simp [hp']
